@@ -1,5 +1,5 @@
 (* C17 -- topology and propagation delays are reconstructed correctly from port timestamps. *)
-From EC Require Import Base.Prelude Base.Bytes Dc.Topo Dc.TopoProofs.
+From EC Require Import Base.Prelude Base.Bytes Dc.Topo Dc.TopoProofs Dc.Chain.
 Local Open Scope N_scope.
 
 (* For ANY port reports of ANY number of devices (open/closed flags and 32-bit port times chosen
@@ -33,3 +33,19 @@ Theorem c17_wrap_refuted :
     assign Debug (mk_devs 0 l) = Ok out /\ map d_delay out <> [0; 100].
 Proof. exact wrap_refuted. Qed.
 Print Assumptions c17_wrap_refuted.
+
+(* Pure chains: devices wired port 0 -> port 1, all DC capable, one forwarding delay p > 0 in every
+   device, ANY link delays, any start time, any length (times within 32 bits).  The port times each
+   device latches are generated from these delays ([reps]: arrival at port 0, return at port 1 after
+   the frame has travelled to the end of the line and back); the computation succeeds and the delay
+   it assigns to device i is exactly the time the frame needs from the first device to device i. *)
+Theorem c17_chain_exact : forall md a p ls, 0 < p -> back a p ls <= u32max ->
+  exists out, assign md (mk_devs 0 (reps a p ls)) = Ok out /\
+    map d_delay out = map (fun x => x - a) (arrivals a p ls).
+Proof. exact chain_delays_exact. Qed.
+Print Assumptions c17_chain_exact.
+
+Theorem c17_chain_example :
+  exists out, assign Debug (mk_devs 0 (reps 1000 300 [50; 120; 80])) = Ok out /\ map d_delay out = [0; 350; 770; 1150].
+Proof. exact chain_example. Qed.
+Print Assumptions c17_chain_example.
